@@ -1716,67 +1716,140 @@ theorem good_at_root (g : Graph) (d : Nat → Nat) (w : Nat) (s : State) (hn : s
 
 /-! ## the shape of the paths in reachable states -/
 
-/-- a piece of a step of worker `w`: the records of the other workers and the sizes of the tables stay -/
-structure Loc (w : Nat) (s s' : State) : Prop where
+/-- a piece of a step of worker `w`: the records of the other workers and the sizes of the tables stay, the parsed
+part of the graph only grows, the other workers' drops stay and `w` newly drops keys in `D` only -/
+structure Loc (w : Nat) (D : Key → Prop) (s s' : State) : Prop where
   nodesLen : s'.nodes.length = s.nodes.length
   regsLen : s'.regs.length = s.regs.length
   workersLen : s'.workers.length = s.workers.length
   others : ∀ v, v ≠ w → s'.wd v = s.wd v
   hiddenSub : ∀ x, x ∈ s'.hidden → x ∈ s.hidden
   incSub : ∀ x, x ∈ s.incompatible → x ∈ s'.incompatible
+  drops : ∀ u k, dropped s' u k = true → dropped s u k = true ∨ (u = w ∧ D k)
 
-theorem Loc.refl (w : Nat) (s : State) : Loc w s s := ⟨rfl, rfl, rfl, fun _ _ => rfl, fun _ h => h, fun _ h => h⟩
+theorem Loc.refl (w : Nat) {D : Key → Prop} (s : State) : Loc w D s s :=
+  ⟨rfl, rfl, rfl, fun _ _ => rfl, fun _ h => h, fun _ h => h, fun _ _ h => Or.inl h⟩
 
-theorem Loc.trans {w : Nat} {s s1 s2 : State} (a : Loc w s s1) (b : Loc w s1 s2) : Loc w s s2 :=
+theorem Loc.trans {w : Nat} {D : Key → Prop} {s s1 s2 : State} (a : Loc w D s s1) (b : Loc w D s1 s2) : Loc w D s s2 :=
   ⟨b.nodesLen.trans a.nodesLen, b.regsLen.trans a.regsLen, b.workersLen.trans a.workersLen,
    fun v hv => (b.others v hv).trans (a.others v hv), fun x hx => a.hiddenSub x (b.hiddenSub x hx),
-   fun x hx => b.incSub x (a.incSub x hx)⟩
+   fun x hx => b.incSub x (a.incSub x hx), fun u k h => by
+    rcases b.drops u k h with h1 | h1
+    · exact a.drops u k h1
+    · exact Or.inr h1⟩
 
-theorem loc_setWd (w : Nat) (s : State) (f : WorkerD → WorkerD) : Loc w s (s.setWd w f) :=
-  ⟨rfl, rfl, by simp [State.setWd], fun v hv => wd_setWd_ne s w v f hv, fun _ h => h, fun _ h => h⟩
+theorem loc_setWd (w : Nat) {D : Key → Prop} (s : State) (f : WorkerD → WorkerD) : Loc w D s (s.setWd w f) :=
+  ⟨rfl, rfl, by simp [State.setWd], fun v hv => wd_setWd_ne s w v f hv, fun _ h => h, fun _ h => h,
+   fun u k h => Or.inl (by rw [dropped_setWd] at h; exact h)⟩
 
 /-- ... and the own record stays as well -/
-structure LW (w : Nat) (s s' : State) : Prop extends Loc w s s' where
+structure LW (w : Nat) (D : Key → Prop) (s s' : State) : Prop extends Loc w D s s' where
   own : s'.wd w = s.wd w
 
-theorem LW.refl (w : Nat) (s : State) : LW w s s := ⟨Loc.refl w s, rfl⟩
+theorem LW.refl (w : Nat) {D : Key → Prop} (s : State) : LW w D s s := ⟨Loc.refl w s, rfl⟩
 
-theorem LW.trans {w : Nat} {s s1 s2 : State} (a : LW w s s1) (b : LW w s1 s2) : LW w s s2 :=
+theorem LW.trans {w : Nat} {D : Key → Prop} {s s1 s2 : State} (a : LW w D s s1) (b : LW w D s1 s2) : LW w D s s2 :=
   ⟨a.toLoc.trans b.toLoc, b.own.trans a.own⟩
 
-theorem Fr.lw {s s' : State} (a : Fr s s') (w : Nat) : LW w s s' :=
+theorem Fr.lw {s s' : State} (a : Fr s s') (w : Nat) {D : Key → Prop} : LW w D s s' :=
   ⟨⟨a.nodesLen, by rw [a.regs], by rw [a.workers], fun v _ => a.wd v, fun x hx => by rw [← a.hidden]; exact hx,
-    fun x hx => by rw [a.incompatible]; exact hx⟩, a.wd w⟩
+    fun x hx => by rw [a.incompatible]; exact hx,
+    fun u k h => Or.inl (by rw [dropped_of_regs s s' a.regs] at h; exact h)⟩, a.wd w⟩
 
-theorem lw_setCr (w : Nat) (s : State) (c : Nat) (f : ClassRegs → ClassRegs) : LW w s (s.setCr c f) :=
-  ⟨⟨rfl, regs_length_setCr s c f, rfl, fun _ _ => rfl, fun _ h => h, fun _ h => h⟩, rfl⟩
+theorem lw_pickS (w : Nat) {D : Key → Prop} (s : State) (c : Nat) (X : ClassRegs → Reg) :
+    LW w D s (s.setCr c (fun r => { r with pickedBySetup := X r })) :=
+  ⟨⟨rfl, regs_length_setCr s c _, rfl, fun _ _ => rfl, fun _ h => h, fun _ h => h,
+    fun u k h => Or.inl (by rw [dropped_setCr_pickS] at h; exact h)⟩, rfl⟩
 
-theorem lw_dropChildren (g : Graph) (next w : Nat) (l : List (Nat × List String)) (s : State) :
-    LW w s (l.foldl (fun s (p, _) => dropChild g s p next w) s) := by
+theorem lw_pickC (w : Nat) {D : Key → Prop} (s : State) (c : Nat) (X : ClassRegs → Reg) :
+    LW w D s (s.setCr c (fun r => { r with pickedByCleanup := X r })) :=
+  ⟨⟨rfl, regs_length_setCr s c _, rfl, fun _ _ => rfl, fun _ h => h, fun _ h => h,
+    fun u k h => Or.inl (by rw [dropped_setCr_pickC] at h; exact h)⟩, rfl⟩
+
+/-- a drop names its worker -/
+theorem dropped_dropParent_who (g : Graph) (s : State) (child parent v u : Nat) (k : Key)
+    (h : dropped (dropParent g s child parent v) u k = true) :
+    dropped s u k = true ∨ (u = v ∧ k.2.2 = (g.node parent).cls) := by
+  unfold dropParent at h
+  unfold dropped at h ⊢
+  rcases cr_setCr_cases s (g.node child).cls
+    (fun r => { r with droppedSetup := regAdd r.droppedSetup ((g.node parent).cls, v) }) k.2.1 with h1 | ⟨_, h1⟩
+  · rw [h1] at h; exact Or.inl h
+  · rw [h1] at h
+    cases hk : k.1
+    · simp only [hk, Bool.false_eq_true, if_false] at h ⊢
+      exact Or.inl h
+    · simp only [hk, if_true] at h ⊢
+      rw [List.contains_iff_mem, mem_regWorkers_regAdd] at h
+      rcases h with h | h
+      · left; rw [List.contains_iff_mem]; exact h
+      · right; exact h
+
+theorem dropped_dropChild_who (g : Graph) (s : State) (parent child v u : Nat) (k : Key)
+    (h : dropped (dropChild g s parent child v) u k = true) :
+    dropped s u k = true ∨ (u = v ∧ k.2.2 = (g.node child).cls) := by
+  unfold dropChild at h
+  unfold dropped at h ⊢
+  rcases cr_setCr_cases s (g.node parent).cls
+    (fun r => { r with droppedCleanup := regAdd r.droppedCleanup ((g.node child).cls, v) }) k.2.1 with h1 | ⟨_, h1⟩
+  · rw [h1] at h; exact Or.inl h
+  · rw [h1] at h
+    cases hk : k.1
+    · simp only [hk, Bool.false_eq_true, if_false] at h ⊢
+      rw [List.contains_iff_mem, mem_regWorkers_regAdd] at h
+      rcases h with h | h
+      · left; rw [List.contains_iff_mem]; exact h
+      · right; exact h
+    · simp only [hk, if_true] at h ⊢
+      exact Or.inl h
+
+theorem lw_dropParent (g : Graph) (w : Nat) {D : Key → Prop} (s : State) (child parent : Nat)
+    (hD : ∀ k : Key, k.2.2 = (g.node parent).cls → D k) : LW w D s (dropParent g s child parent w) :=
+  ⟨⟨rfl, by unfold dropParent; exact regs_length_setCr s _ _, rfl, fun _ _ => rfl, fun _ h => h, fun _ h => h,
+    fun u k h => by
+      rcases dropped_dropParent_who g s child parent w u k h with h1 | ⟨h1, h2⟩
+      · exact Or.inl h1
+      · exact Or.inr ⟨h1, hD k h2⟩⟩, rfl⟩
+
+theorem lw_dropChild (g : Graph) (w : Nat) {D : Key → Prop} (s : State) (parent child : Nat)
+    (hD : ∀ k : Key, k.2.2 = (g.node child).cls → D k) : LW w D s (dropChild g s parent child w) :=
+  ⟨⟨rfl, by unfold dropChild; exact regs_length_setCr s _ _, rfl, fun _ _ => rfl, fun _ h => h, fun _ h => h,
+    fun u k h => by
+      rcases dropped_dropChild_who g s parent child w u k h with h1 | ⟨h1, h2⟩
+      · exact Or.inl h1
+      · exact Or.inr ⟨h1, hD k h2⟩⟩, rfl⟩
+
+theorem lw_dropChildren (g : Graph) (next w : Nat) {D : Key → Prop} (hD : ∀ k : Key, k.2.2 = (g.node next).cls → D k)
+    (l : List (Nat × List String)) (s : State) :
+    LW w D s (l.foldl (fun s (p, _) => dropChild g s p next w) s) := by
   induction l generalizing s with
   | nil => exact LW.refl w s
-  | cons a r ih => simp only [List.foldl_cons]; exact (lw_setCr w s _ _).trans (ih _)
+  | cons a r ih => simp only [List.foldl_cons]; exact (lw_dropChild g w s a.1 next hD).trans (ih _)
+
+variable {D : Key → Prop}
 
 /-- the direction recorded with a test execution matches the path: a node entered downwards was reached downwards -/
 def DirOK (g : Graph) (d : WorkerD) : Prop :=
-  ∀ n ph uid tag wt, d.pc = .test n ph .down uid tag wt → ∀ last, d.path.getLast? = some last →
-    isUp g (d.path.getD (d.path.length - 2) 0) last = false
+  (∀ n ph uid tag wt, d.pc = .test n ph .down uid tag wt → ∀ last, d.path.getLast? = some last →
+    isUp g (d.path.getD (d.path.length - 2) 0) last = false) ∧
+  (∀ n ph dir uid tag wt, d.pc = .test n ph dir uid tag wt → (g.node n).flat = false)
 
 theorem dirOK_of_pc (g : Graph) (d : WorkerD) (h : ∀ n ph dir uid tag wt, d.pc ≠ .test n ph dir uid tag wt) : DirOK g d :=
-  fun n ph uid tag wt hp => absurd hp (h n ph .down uid tag wt)
+  ⟨fun n ph uid tag wt hp => absurd hp (h n ph .down uid tag wt),
+   fun n ph dir uid tag wt hp => absurd hp (h n ph dir uid tag wt)⟩
 
 /-- the path effects that keep the walk -/
-theorem own_pop {g : Graph} {d : Nat → Nat} {w : Nat} {s sX : State} (a : LW w s sX) (hw : w < s.workers.length)
+theorem own_pop {g : Graph} {d : Nat → Nat} {w : Nat} {s sX : State} (a : LW w D s sX) (hw : w < s.workers.length)
     (hwalk : Walk g d (s.wd w).path) :
-    Loc w s (popPath sX w) ∧ Walk g d ((popPath sX w).wd w).path ∧ ((popPath sX w).wd w).pc = (s.wd w).pc := by
+    Loc w D s (popPath sX w) ∧ Walk g d ((popPath sX w).wd w).path ∧ ((popPath sX w).wd w).pc = (s.wd w).pc := by
   have hwX : w < sX.workers.length := by rw [a.workersLen]; exact hw
   unfold popPath
   rw [wd_setWd_eq sX w _ hwX, a.own]
   exact ⟨a.toLoc.trans (loc_setWd w sX _), walk_pop g d _ hwalk, rfl⟩
 
-theorem own_push {g : Graph} {d : Nat → Nat} {w : Nat} {s sX : State} (a : LW w s sX) (hw : w < s.workers.length) (c : Nat)
+theorem own_push {g : Graph} {d : Nat → Nat} {w : Nat} {s sX : State} (a : LW w D s sX) (hw : w < s.workers.length) (c : Nat)
     (hwalk : Walk g d ((s.wd w).path ++ [c])) :
-    Loc w s (pushPath sX w c) ∧ Walk g d ((pushPath sX w c).wd w).path ∧ ((pushPath sX w c).wd w).pc = (s.wd w).pc := by
+    Loc w D s (pushPath sX w c) ∧ Walk g d ((pushPath sX w c).wd w).path ∧ ((pushPath sX w c).wd w).pc = (s.wd w).pc := by
   have hwX : w < sX.workers.length := by rw [a.workersLen]; exact hw
   unfold pushPath
   rw [wd_setWd_eq sX w _ hwX, a.own]
@@ -1786,8 +1859,9 @@ theorem afterTraverse_any (g : Graph) (d : Nat → Nat) (hr : Ranked g d) (hsym 
     (w next prev : Nat) (dir : Dir) (hw : w < sF.workers.length)
     (hlast : (sF.wd w).path.getLast? = some next)
     (hprev : prev = (sF.wd w).path.getD ((sF.wd w).path.length - 2) 0)
-    (hwalk : Walk g d (sF.wd w).path) (hdir : dir = .down → isUp g prev next = false) :
-    Loc w sF (afterTraverse (vis g sv) sF w next prev dir).1 ∧
+    (hwalk : Walk g d (sF.wd w).path) (hdir : dir = .down → isUp g prev next = false)
+    (hD : ∀ k : Key, k.2.2 = (g.node next).cls → D k) :
+    Loc w D sF (afterTraverse (vis g sv) sF w next prev dir).1 ∧
     Walk g d ((afterTraverse (vis g sv) sF w next prev dir).1.wd w).path ∧
     ((afterTraverse (vis g sv) sF w next prev dir).1.wd w).pc = (sF.wd w).pc := by
   unfold afterTraverse
@@ -1795,13 +1869,13 @@ theorem afterTraverse_any (g : Graph) (d : Nat → Nat) (hr : Ranked g d) (hsym 
   | error e => exact ⟨Loc.refl _ _, hwalk, rfl⟩
   | ok r =>
     obtain ⟨run, s1, evs⟩ := r
-    have a1 : LW w sF s1 := (fr_runDecision _ sF next w run s1 evs hrd).lw w
+    have a1 : LW w D sF s1 := (fr_runDecision _ sF next w run s1 evs hrd).lw w
     cases dir with
     | up =>
       dsimp only
-      have aX : LW w sF (if (!run) = true then dropParent (vis g sv) s1 prev next w else s1) := by
+      have aX : LW w D sF (if (!run) = true then dropParent (vis g sv) s1 prev next w else s1) := by
         split
-        · exact a1.trans (lw_setCr w s1 _ _)
+        · exact a1.trans (lw_dropParent (vis g sv) w s1 prev next (fun k hk => hD k (by rw [hk, vis_cls])))
         · exact a1
       exact own_pop aX hw hwalk
     | down =>
@@ -1818,7 +1892,8 @@ theorem afterTraverse_any (g : Graph) (d : Nat → Nat) (hr : Ranked g d) (hsym 
             rw [wd_setWd_eq s1 w _ hw1, a1.own, vis_root]
             exact ⟨a1.toLoc.trans (loc_setWd w s1 _), walk_root g d g.root, rfl⟩
           · simp only [hpp, Bool.false_eq_true, if_false]
-            have aD := a1.trans (lw_dropChildren (vis g sv) next w ((vis g sv).node next).setup s1)
+            have aD := a1.trans (lw_dropChildren (vis g sv) next w (fun k hk => hD k (by rw [hk, vis_cls]))
+              ((vis g sv).node next).setup s1)
             cases hrev : reverseNode (vis g sv) (List.foldl (fun s x => dropChild (vis g sv) s x.1 next w) s1 ((vis g sv).node next).setup) next w with
             | error e =>
               dsimp only
@@ -1838,7 +1913,7 @@ theorem afterTraverse_any (g : Graph) (d : Nat → Nat) (hr : Ranked g d) (hsym 
             obtain ⟨c, s3⟩ := r
             dsimp only
             obtain ⟨hcm, _, hs3⟩ := pickChild_spec _ s1 next w c s3 hpk
-            have a3 : LW w sF s3 := by rw [hs3]; exact a1.trans (lw_setCr w s1 _ _)
+            have a3 : LW w D sF s3 := by rw [hs3]; exact a1.trans (lw_pickS w s1 _ _)
             exact own_push a3 hw c (walk_pushDown g d hr hsym _ next c hwalk hlast (vis_cleanup_sub g sv next c hcm)
               (Or.inr (by rw [← hprev]; exact hdir rfl)))
 
@@ -1856,39 +1931,46 @@ theorem startTest_inc (g : Graph) (s : State) (n w : Nat) (ph : Phase) (dir : Di
   split <;> rfl
 
 theorem startTest_own (g : Graph) (s : State) (n w : Nat) (ph : Phase) (dir : Dir) (hw : w < s.workers.length) :
-    Loc w s (startTest g s n w ph dir).1 ∧ ((startTest g s n w ph dir).1.wd w).path = (s.wd w).path ∧
+    Loc w D s (startTest g s n w ph dir).1 ∧ ((startTest g s n w ph dir).1.wd w).path = (s.wd w).path ∧
     ∃ uid tag, ((startTest g s n w ph dir).1.wd w).pc = .test n ph dir uid tag 0 := by
   obtain ⟨a, b, c, _⟩ := startTest_ok g s n w ph dir hw
   exact ⟨⟨a.nodesLen, by rw [startTest_regs], a.workersLen, a.others, fun x hx => by rw [← a.hidden]; exact hx,
-    fun x hx => by rw [startTest_inc]; exact hx⟩, b, c⟩
+    fun x hx => by rw [startTest_inc]; exact hx,
+    fun u k h => Or.inl (by rw [dropped_of_regs s _ (startTest_regs g s n w ph dir)] at h; exact h)⟩, b, c⟩
 
 theorem dirOK_test (g : Graph) (wd : WorkerD) (n : Nat) (ph : Phase) (dir : Dir) (uid : String) (tag wt : Nat)
     (hpc : wd.pc = .test n ph dir uid tag wt) (next : Nat) (hl : wd.path.getLast? = some next)
-    (hdir : dir = .down → isUp g (wd.path.getD (wd.path.length - 2) 0) next = false) : DirOK g wd := by
-  intro n' ph' uid' tag' wt' hp last hlast
-  rw [hpc] at hp
-  injection hp with _ _ h3
-  rw [hl] at hlast
-  injection hlast with h4
-  rw [← h4]
-  exact hdir h3
+    (hdir : dir = .down → isUp g (wd.path.getD (wd.path.length - 2) 0) next = false)
+    (hflat : (g.node n).flat = false) : DirOK g wd := by
+  refine ⟨?_, ?_⟩
+  · intro n' ph' uid' tag' wt' hp last hlast
+    rw [hpc] at hp
+    injection hp with _ _ h3
+    rw [hl] at hlast
+    injection hlast with h4
+    rw [← h4]
+    exact hdir h3
+  · intro n' ph' dir' uid' tag' wt' hp
+    rw [hpc] at hp
+    injection hp with h1
+    rw [← h1]; exact hflat
 
 theorem traverseNode_any (g : Graph) (d : Nat → Nat) (hr : Ranked g d) (hsym : EdgeSym g) (sv s : State)
     (w next prev : Nat) (dir : Dir) (hw : w < s.workers.length)
     (hlast : (s.wd w).path.getLast? = some next)
     (hprev : prev = (s.wd w).path.getD ((s.wd w).path.length - 2) 0)
     (hwalk : Walk g d (s.wd w).path) (hdir : dir = .down → isUp g prev next = false)
-    (hpc : (s.wd w).pc = .loop) :
-    Loc w s (traverseNode (vis g sv) s w next prev dir).1 ∧
+    (hpc : (s.wd w).pc = .loop) (hD : ∀ k : Key, k.2.2 = (g.node next).cls → D k) :
+    Loc w D s (traverseNode (vis g sv) s w next prev dir).1 ∧
     Walk g d ((traverseNode (vis g sv) s w next prev dir).1.wd w).path ∧
     DirOK g ((traverseNode (vis g sv) s w next prev dir).1.wd w) := by
-  have viaAfter : ∀ sF, LW w s sF →
-      Loc w s (afterTraverse (vis g sv) sF w next prev dir).1 ∧
+  have viaAfter : ∀ sF, LW w D s sF →
+      Loc w D s (afterTraverse (vis g sv) sF w next prev dir).1 ∧
       Walk g d ((afterTraverse (vis g sv) sF w next prev dir).1.wd w).path ∧
       DirOK g ((afterTraverse (vis g sv) sF w next prev dir).1.wd w) := by
     intro sF aF
     obtain ⟨h1, h2, h3⟩ := afterTraverse_any g d hr hsym sv sF w next prev dir (by rw [aF.workersLen]; exact hw)
-      (by rw [aF.own]; exact hlast) (by rw [aF.own]; exact hprev) (by rw [aF.own]; exact hwalk) hdir
+      (by rw [aF.own]; exact hlast) (by rw [aF.own]; exact hprev) (by rw [aF.own]; exact hwalk) hdir hD
     refine ⟨aF.toLoc.trans h1, h2, dirOK_of_pc g _ ?_⟩
     intro n ph dir uid tag wt hx
     rw [h3, aF.own, hpc] at hx
@@ -1898,7 +1980,7 @@ theorem traverseNode_any (g : Graph) (d : Nat → Nat) (hr : Ranked g d) (hsym :
   · simp only [hocc, if_true]
     exact viaAfter s (LW.refl w s)
   · simp only [hocc, Bool.false_eq_true, if_false]
-    have aP : LW w s (pullLocations (vis g sv) (s.setNd next (fun d => { d with started := some w })) next) :=
+    have aP : LW w D s (pullLocations (vis g sv) (s.setNd next (fun d => { d with started := some w })) next) :=
       ((fr_setNd s next _).trans (fr_pullLocations _ _ next)).lw w
     generalize pullLocations (vis g sv) (s.setNd next (fun d => { d with started := some w })) next = sa at aP ⊢
     cases hd : runDecision (vis g sv) sa next w with
@@ -1908,30 +1990,34 @@ theorem traverseNode_any (g : Graph) (d : Nat → Nat) (hr : Ranked g d) (hsym :
       exact ⟨aP.toLoc, hwalk, dirOK_of_pc g _ (by intro n ph dir uid tag wt hx; rw [hpc] at hx; cases hx)⟩
     | ok r =>
       obtain ⟨run, s1, evs⟩ := r
-      have a1 : LW w s s1 := aP.trans ((fr_runDecision _ sa next w run s1 evs hd).lw w)
+      have a1 : LW w D s s1 := aP.trans ((fr_runDecision _ sa next w run s1 evs hd).lw w)
       have hw1 : w < s1.workers.length := by rw [a1.workersLen]; exact hw
       dsimp only
       -- a started test: the path stays, the recorded direction is the one of this iteration
-      have started : ∀ sT : State, Loc w s sT → (sT.wd w).path = (s.wd w).path → ∀ ph,
-          Loc w s (startTest (vis g sv) sT next w ph dir).1 ∧
+      have started : (g.node next).flat = false → ∀ sT : State, Loc w D s sT → (sT.wd w).path = (s.wd w).path → ∀ ph,
+          Loc w D s (startTest (vis g sv) sT next w ph dir).1 ∧
           Walk g d ((startTest (vis g sv) sT next w ph dir).1.wd w).path ∧
           DirOK g ((startTest (vis g sv) sT next w ph dir).1.wd w) := by
-        intro sT aT hpT ph
+        intro hnf sT aT hpT ph
         obtain ⟨h1, h2, uid, tag, h3⟩ := startTest_own (vis g sv) sT next w ph dir (by rw [aT.workersLen]; exact hw)
         rw [hpT] at h2
         refine ⟨aT.trans h1, by rw [h2]; exact hwalk, ?_⟩
-        refine dirOK_test g _ next ph dir uid tag 0 h3 next (by rw [h2]; exact hlast) ?_
+        refine dirOK_test g _ next ph dir uid tag 0 h3 next (by rw [h2]; exact hlast) ?_ hnf
         intro hdn
         rw [h2, ← hprev]
         exact hdir hdn
       by_cases hrun : run = true
-      · simp only [hrun, if_true]
+      · have hnf : (g.node next).flat = false := by
+          subst hrun
+          have := (runDecision_true_own (vis g sv) sa next w s1 evs hd).2.1
+          rw [vis_flat] at this; exact this
+        simp only [hrun, if_true]
         by_cases hroot : ((vis g sv).node next).objectRoot = true
         · simp only [hroot, if_true]
-          refine started _ (a1.toLoc.trans (loc_setWd w s1 _)) ?_ .pre
+          refine started hnf _ (a1.toLoc.trans (loc_setWd w s1 _)) ?_ .pre
           rw [wd_setWd_eq s1 w _ hw1, a1.own]
         · simp only [hroot, Bool.false_eq_true, if_false]
-          exact started s1 a1.toLoc (by rw [a1.own]) .plain
+          exact started hnf s1 a1.toLoc (by rw [a1.own]) .plain
       · simp only [hrun, Bool.false_eq_true, if_false]
         exact viaAfter _ (a1.trans ((fr_finishTraverse s1 next w).lw w))
 
@@ -1948,14 +2034,15 @@ theorem pc_setWd_const (s : State) (w : Nat) (f : WorkerD → WorkerD) (hf : ∀
     rw [this]; exact h
 
 theorem iter_any (g : Graph) (d : Nat → Nat) (hr : Ranked g d) (hsym : EdgeSym g) (s : State) (w : Nat)
-    (hwalk : Walk g d (s.wd w).path) (hpc : (s.wd w).pc = .loop) :
-    Loc w s (iter (vis g s) s w).1 ∧ Walk g d ((iter (vis g s) s w).1.wd w).path ∧
+    (hwalk : Walk g d (s.wd w).path) (hpc : (s.wd w).pc = .loop)
+    (hD : ∀ next, (s.wd w).path.getLast? = some next → ∀ k : Key, k.2.2 = (g.node next).cls → D k) :
+    Loc w D s (iter (vis g s) s w).1 ∧ Walk g d ((iter (vis g s) s w).1.wd w).path ∧
     DirOK g ((iter (vis g s) s w).1.wd w) := by
   have hd0 : DirOK g (s.wd w) := dirOK_of_pc g _ (by intro n ph dir uid tag wt hx; rw [hpc] at hx; cases hx)
-  have same : Loc w s s ∧ Walk g d (s.wd w).path ∧ DirOK g (s.wd w) := ⟨Loc.refl w s, hwalk, hd0⟩
+  have same : Loc w D s s ∧ Walk g d (s.wd w).path ∧ DirOK g (s.wd w) := ⟨Loc.refl w s, hwalk, hd0⟩
   -- a push keeps the pc
-  have pushed : ∀ (sX : State) (c : Nat), LW w s sX → w < s.workers.length → Walk g d ((s.wd w).path ++ [c]) →
-      Loc w s (pushPath sX w c) ∧ Walk g d ((pushPath sX w c).wd w).path ∧ DirOK g ((pushPath sX w c).wd w) := by
+  have pushed : ∀ (sX : State) (c : Nat), LW w D s sX → w < s.workers.length → Walk g d ((s.wd w).path ++ [c]) →
+      Loc w D s (pushPath sX w c) ∧ Walk g d ((pushPath sX w c).wd w).path ∧ DirOK g ((pushPath sX w c).wd w) := by
     intro sX c aX hw hwk
     obtain ⟨h1, h2, h3⟩ := own_push aX hw c hwk
     exact ⟨h1, h2, dirOK_of_pc g _ (by intro n ph dir uid tag wt hx; rw [h3, hpc] at hx; cases hx)⟩
@@ -1978,7 +2065,7 @@ theorem iter_any (g : Graph) (d : Nat → Nat) (hr : Ranked g d) (hsym : EdgeSym
       have hne : (s.wd w).path ≠ [] := by intro h; rw [h] at hl; simp at hl
       have hw : w < s.workers.length := lt_of_path_ne_nil s w hne
       dsimp only
-      have pushParent : Loc w s (match pickParent (vis g s) s next w with
+      have pushParent : Loc w D s (match pickParent (vis g s) s next w with
             | none => ((s, [], Flow.raise "RuntimeError") : Step)
             | some (p, s') => (pushPath s' w p, [], Flow.cont)).1 ∧
           Walk g d ((match pickParent (vis g s) s next w with
@@ -1993,7 +2080,7 @@ theorem iter_any (g : Graph) (d : Nat → Nat) (hr : Ranked g d) (hsym : EdgeSym
           obtain ⟨c, s3⟩ := r
           dsimp only
           obtain ⟨hcm, _, hs3⟩ := pickParent_spec _ s next w c s3 hpk
-          exact pushed s3 c (by rw [hs3]; exact lw_setCr w s _ _) hw
+          exact pushed s3 c (by rw [hs3]; exact lw_pickC w s _ _) hw
             (walk_pushUp g d hr hsym _ next c hwalk hl (vis_setup_sub g s next c hcm))
       by_cases hlen1 : ((s.wd w).path.length == 1) = true
       · simp only [hlen1, if_true]
@@ -2004,15 +2091,15 @@ theorem iter_any (g : Graph) (d : Nat → Nat) (hr : Ranked g d) (hsym : EdgeSym
           obtain ⟨c, s3⟩ := r
           dsimp only
           obtain ⟨hcm, _, hs3⟩ := pickChild_spec _ s next w c s3 hpk
-          exact pushed s3 c (by rw [hs3]; exact lw_setCr w s _ _) hw
+          exact pushed s3 c (by rw [hs3]; exact lw_pickS w s _ _) hw
             (walk_pushDown g d hr hsym _ next c hwalk hl (vis_cleanup_sub g s next c hcm) (Or.inl hlen1'))
       · simp only [hlen1, Bool.false_eq_true, if_false]
         by_cases hocc : isOccupied (vis g s) s next w = true
         · -- the back-off
           simp only [hocc, if_true]
-          have key : ∀ (sX : State) (f : WorkerD → WorkerD), Loc w s sX → (∀ x, (f x).path = [(vis g s).root]) →
+          have key : ∀ (sX : State) (f : WorkerD → WorkerD), Loc w D s sX → (∀ x, (f x).path = [(vis g s).root]) →
               (∀ x, (f x).pc = .bounce) →
-              Loc w s (sX.setWd w f) ∧ Walk g d ((sX.setWd w f).wd w).path ∧ DirOK g ((sX.setWd w f).wd w) := by
+              Loc w D s (sX.setWd w f) ∧ Walk g d ((sX.setWd w f).wd w).path ∧ DirOK g ((sX.setWd w f).wd w) := by
             intro sX f aX h1 h2
             have hwX : w < sX.workers.length := by rw [aX.workersLen]; exact hw
             rw [wd_setWd_eq sX w f hwX]
@@ -2031,7 +2118,7 @@ theorem iter_any (g : Graph) (d : Nat → Nat) (hr : Ranked g d) (hsym : EdgeSym
           · simp only [hup, if_true]
             by_cases hsr : isSetupReady (vis g s) s next w = true
             · simp only [hsr, if_true]
-              exact traverseNode_any g d hr hsym s s w next _ .up hw hl rfl hwalk (fun h => by cases h) hpc
+              exact traverseNode_any g d hr hsym s s w next _ .up hw hl rfl hwalk (fun h => by cases h) hpc (hD next hl)
             · simp only [hsr, Bool.false_eq_true, if_false]
               exact pushParent
           · simp only [hup, Bool.false_eq_true, if_false]
@@ -2041,7 +2128,7 @@ theorem iter_any (g : Graph) (d : Nat → Nat) (hr : Ranked g d) (hsym : EdgeSym
               · simp only [hsr, Bool.not_true, Bool.false_eq_true, if_false]
                 have hmem := vis_setup_sub g s next _ (by simpa using hdn)
                 exact traverseNode_any g d hr hsym s s w next _ .down hw hl rfl hwalk
-                  (fun _ => isUp_child g d hr hsym _ next ((hsym _ next).mp hmem)) hpc
+                  (fun _ => isUp_child g d hr hsym _ next ((hsym _ next).mp hmem)) hpc (hD next hl)
               · simp only [hsr, Bool.not_false, if_true]
                 exact pushParent
             · simp only [hdn, Bool.false_eq_true, if_false]
@@ -2049,16 +2136,18 @@ theorem iter_any (g : Graph) (d : Nat → Nat) (hr : Ranked g d) (hsym : EdgeSym
 
 
 theorem prepare_loc (g : Graph) (s : State) (w : Nat) :
-    Loc w s (prepare g s w) ∧ ((prepare g s w).wd w).path = (s.wd w).path ∧ ((prepare g s w).wd w).pc = (s.wd w).pc := by
+    Loc w D s (prepare g s w) ∧ ((prepare g s w).wd w).path = (s.wd w).path ∧ ((prepare g s w).wd w).pc = (s.wd w).pc := by
   obtain ⟨h1, h2, h3, h4⟩ := prepare_frame g s w
-  refine ⟨⟨by rw [h1], ?_, h2, ?_, h4, ?_⟩, (h3 w).1, (h3 w).2⟩
-  · unfold prepare
+  have hregs : (prepare g s w).regs = s.regs := by
+    unfold prepare
     dsimp only
     split
     · rfl
     · split
       · unfold reveal; dsimp only; split <;> rfl
       · rfl
+  refine ⟨⟨by rw [h1], by rw [hregs], h2, ?_, h4, ?_,
+    fun u k h => Or.inl (by rw [dropped_of_regs s _ hregs] at h; exact h)⟩, (h3 w).1, (h3 w).2⟩
   · intro v hv
     unfold prepare
     dsimp only
@@ -2083,14 +2172,16 @@ theorem prepare_loc (g : Graph) (s : State) (w : Nat) :
       · exact hx
 
 theorem iterL_any (g : Graph) (d : Nat → Nat) (hr : Ranked g d) (hsym : EdgeSym g) (s : State) (w : Nat)
-    (hwalk : Walk g d (s.wd w).path) (hpc : (s.wd w).pc = .loop) :
-    Loc w s (iterL g s w).1 ∧ Walk g d ((iterL g s w).1.wd w).path ∧ DirOK g ((iterL g s w).1.wd w) := by
+    (hwalk : Walk g d (s.wd w).path) (hpc : (s.wd w).pc = .loop)
+    (hD : ∀ next, (s.wd w).path.getLast? = some next → ∀ k : Key, k.2.2 = (g.node next).cls → D k) :
+    Loc w D s (iterL g s w).1 ∧ Walk g d ((iterL g s w).1.wd w).path ∧ DirOK g ((iterL g s w).1.wd w) := by
   unfold iterL
   split
-  · exact iter_any g d hr hsym s w hwalk hpc
+  · exact iter_any g d hr hsym s w hwalk hpc hD
   · dsimp only
-    obtain ⟨a, b, c⟩ := prepare_loc g s w
-    obtain ⟨h1, h2, h3⟩ := iter_any g d hr hsym (prepare g s w) w (by rw [b]; exact hwalk) (by rw [c]; exact hpc)
+    obtain ⟨a, b, c⟩ := prepare_loc (D := D) g s w
+    obtain ⟨h1, h2, h3⟩ := iter_any (D := D) g d hr hsym (prepare g s w) w (by rw [b]; exact hwalk) (by rw [c]; exact hpc)
+      (by rw [b]; exact hD)
     exact ⟨a.trans h1, h2, h3⟩
 
 theorem pc_setLoop (s : State) (w : Nat) : ((s.setWd w (fun d => { d with pc := .loop })).wd w).pc = .loop ∨
@@ -2103,24 +2194,27 @@ theorem wd_of_ge (s : State) (w : Nat) (h : ¬ w < s.workers.length) : s.wd w = 
   unfold State.wd
   rw [List.getD_eq_getElem?_getD, List.getElem?_eq_none (by omega)]; rfl
 
+/-- no information about the own drops -/
+abbrev DT : Key → Prop := fun _ => True
+
 /-- a whole block: the own path keeps its shape, a recorded direction matches it -/
 theorem runLoop_any (g : Graph) (d : Nat → Nat) (hr : Ranked g d) (hsym : EdgeSym g) (w : Nat) (fuel : Nat) (s : State)
     (evs : List Event) (hwalk : Walk g d (s.wd w).path) (hd : fuel = 0 → DirOK g (s.wd w)) :
-    Loc w s (runLoop g w fuel s evs).1 ∧ Walk g d ((runLoop g w fuel s evs).1.wd w).path ∧
+    Loc w DT s (runLoop g w fuel s evs).1 ∧ Walk g d ((runLoop g w fuel s evs).1.wd w).path ∧
     DirOK g ((runLoop g w fuel s evs).1.wd w) := by
   induction fuel generalizing s evs with
   | zero => exact ⟨Loc.refl w s, hwalk, hd rfl⟩
   | succ fuel ih =>
     unfold runLoop
     dsimp only
-    have a0 : Loc w s (s.setWd w (fun d => { d with pc := .loop })) := loc_setWd w s _
+    have a0 : Loc w DT s (s.setWd w (fun d => { d with pc := .loop })) := loc_setWd w s _
     have hp0 : ((s.setWd w (fun d => { d with pc := .loop })).wd w).path = (s.wd w).path :=
       wd_setWd_proj (·.path) s w (fun d => { d with pc := .loop }) (fun _ => rfl) w
     have hpc0 : ((s.setWd w (fun d => { d with pc := .loop })).wd w).pc = .loop := by
       rcases pc_setLoop s w with h | h
       · exact h
       · rw [wd_of_ge _ w (by rw [a0.workersLen]; exact h)]
-    obtain ⟨h1, h2, h3⟩ := iterL_any g d hr hsym _ w (by rw [hp0]; exact hwalk) hpc0
+    obtain ⟨h1, h2, h3⟩ := iterL_any (D := DT) g d hr hsym _ w (by rw [hp0]; exact hwalk) hpc0 (fun _ _ _ _ => trivial)
     split
     · next s1 e heq =>
       rw [heq] at h1 h2 h3
@@ -2141,9 +2235,10 @@ theorem runLoop_any (g : Graph) (d : Nat → Nat) (hr : Ranked g d) (hsym : Edge
 
 
 theorem lw_of_eq (w : Nat) {s s' : State} (hn : s'.nodes = s.nodes) (hr : s'.regs = s.regs) (hw : s'.workers = s.workers)
-    (hh : s'.hidden = s.hidden) (hi : s'.incompatible = s.incompatible) : LW w s s' :=
+    (hh : s'.hidden = s.hidden) (hi : s'.incompatible = s.incompatible) : LW w DT s s' :=
   ⟨⟨by rw [hn], by rw [hr], by rw [hw], fun v _ => by unfold State.wd; rw [hw], fun x hx => by rw [← hh]; exact hx,
-    fun x hx => by rw [hi]; exact hx⟩, by unfold State.wd; rw [hw]⟩
+    fun x hx => by rw [hi]; exact hx, fun u k h => Or.inl (by rw [dropped_of_regs s s' hr] at h; exact h)⟩,
+   by unfold State.wd; rw [hw]⟩
 
 theorem dirOK_failed (g : Graph) (s : State) (w : Nat) : DirOK g ((s.setWd w (fun d => { d with pc := .failed })).wd w) := by
   by_cases hw : w < s.workers.length
@@ -2155,17 +2250,18 @@ theorem dirOK_failed (g : Graph) (s : State) (w : Nat) : DirOK g ((s.setWd w (fu
 theorem continueAfter_any (g : Graph) (d : Nat → Nat) (hr : Ranked g d) (hsym : EdgeSym g) (w n : Nat) (phase : Phase)
     (dir : Dir) (fuel : Nat) (hf : 0 < fuel) (s : State) (ok : Bool) (evs : List Event)
     (hw : w < s.workers.length) (hlast : (s.wd w).path.getLast? = some n) (hwalk : Walk g d (s.wd w).path)
-    (hdir : dir = .down → isUp g ((s.wd w).path.getD ((s.wd w).path.length - 2) 0) n = false) :
-    Loc w s (resumeTest.continueAfter g w n phase dir fuel s ok evs).1 ∧
+    (hdir : dir = .down → isUp g ((s.wd w).path.getD ((s.wd w).path.length - 2) 0) n = false)
+    (hnf : (g.node n).flat = false) :
+    Loc w DT s (resumeTest.continueAfter g w n phase dir fuel s ok evs).1 ∧
     Walk g d ((resumeTest.continueAfter g w n phase dir fuel s ok evs).1.wd w).path ∧
     DirOK g ((resumeTest.continueAfter g w n phase dir fuel s ok evs).1.wd w) := by
   unfold resumeTest.continueAfter
   dsimp only
   split
   · obtain ⟨h1, h2, uid, tag, h3⟩ := startTest_own g s n w .main dir hw
-    refine ⟨h1, by rw [h2]; exact hwalk, dirOK_test g _ n .main dir uid tag 0 h3 n (by rw [h2]; exact hlast) ?_⟩
+    refine ⟨h1, by rw [h2]; exact hwalk, dirOK_test g _ n .main dir uid tag 0 h3 n (by rw [h2]; exact hlast) ?_ hnf⟩
     rw [h2]; exact hdir
-  · have a2 : LW w s (if (phase == Phase.pre) = true then
+  · have a2 : LW w DT s (if (phase == Phase.pre) = true then
           s.setNd n (fun d => { d with results := d.results ++ (s.wd w).preResults.drop d.results.length })
         else s) := by
       split
@@ -2177,10 +2273,11 @@ theorem continueAfter_any (g : Graph) (d : Nat → Nat) (hr : Ranked g d) (hsym 
         else s) n w = sF at aF
     obtain ⟨h1, h2, _⟩ := afterTraverse_any g d hr hsym sF sF w n ((s.wd w).path.getD ((s.wd w).path.length - 2) 0) dir
       (by rw [aF.workersLen]; exact hw) (by rw [aF.own]; exact hlast) (by rw [aF.own]) (by rw [aF.own]; exact hwalk) hdir
+      (D := DT) (fun _ _ => trivial)
     generalize afterTraverse (vis g sF) sF w n ((s.wd w).path.getD ((s.wd w).path.length - 2) 0) dir = r at h1 h2
     obtain ⟨s1, e2, fl⟩ := r
     dsimp only at h1 h2
-    have viaLoop : Loc w s (runLoop g w fuel s1 (evs ++ e2)).1 ∧ Walk g d ((runLoop g w fuel s1 (evs ++ e2)).1.wd w).path ∧
+    have viaLoop : Loc w DT s (runLoop g w fuel s1 (evs ++ e2)).1 ∧ Walk g d ((runLoop g w fuel s1 (evs ++ e2)).1.wd w).path ∧
         DirOK g ((runLoop g w fuel s1 (evs ++ e2)).1.wd w) := by
       obtain ⟨k1, k2, k3⟩ := runLoop_any g d hr hsym w fuel s1 (evs ++ e2) h2 (fun h0 => by omega)
       exact ⟨(aF.toLoc.trans h1).trans k1, k2, k3⟩
@@ -2194,7 +2291,7 @@ theorem continueAfter_any (g : Graph) (d : Nat → Nat) (hr : Ranked g d) (hsym 
     | exit => exact viaLoop
 
 theorem reportOutcome_lw (g : Graph) (s : State) (w n : Nat) (phase : Phase) (uid : String) (wait : Nat) (out : Outcome) :
-    LW w s (reportOutcome g s w n phase uid wait out).1 := by
+    LW w DT s (reportOutcome g s w n phase uid wait out).1 := by
   unfold reportOutcome
   dsimp only
   split
@@ -2206,7 +2303,7 @@ theorem reportOutcome_lw (g : Graph) (s : State) (w n : Nat) (phase : Phase) (ui
   · exact LW.refl w s
 
 theorem recordResult_loc (s : State) (w n : Nat) (phase : Phase) (name uid : String) (tag : Nat) (st0 : String) (dur : Nat) :
-    Loc w s (recordResult s w n phase name uid tag st0 dur).1 ∧
+    Loc w DT s (recordResult s w n phase name uid tag st0 dur).1 ∧
     ((recordResult s w n phase name uid tag st0 dur).1.wd w).path = (s.wd w).path ∧
     ((recordResult s w n phase name uid tag st0 dur).1.wd w).pc = (s.wd w).pc := by
   obtain ⟨b1, _, b3, _⟩ := recordResult_frame s w n phase name uid tag st0 dur
@@ -2214,7 +2311,7 @@ theorem recordResult_loc (s : State) (w n : Nat) (phase : Phase) (name uid : Str
   unfold recordResult
   dsimp only
   have hX : ∀ (c : Bool) (jr : List (String × String × String × Nat)),
-      LW w s (if c = true then { s with jobResults := jr } else s) := by
+      LW w DT s (if c = true then { s with jobResults := jr } else s) := by
     intro c jr; cases c
     · exact LW.refl w s
     · exact lw_of_eq w rfl rfl rfl rfl rfl
@@ -2225,21 +2322,22 @@ theorem recordResult_loc (s : State) (w n : Nat) (phase : Phase) (name uid : Str
 theorem resumeTest_any (g : Graph) (d : Nat → Nat) (hr : Ranked g d) (hsym : EdgeSym g) (s : State) (w n : Nat)
     (phase : Phase) (dir : Dir) (uid : String) (tag wait : Nat) (out : Outcome) (fuel : Nat) (hf : 0 < fuel)
     (hw : w < s.workers.length) (hlast : (s.wd w).path.getLast? = some n) (hwalk : Walk g d (s.wd w).path)
-    (hdir : dir = .down → isUp g ((s.wd w).path.getD ((s.wd w).path.length - 2) 0) n = false) :
-    Loc w s (resumeTest g s w n phase dir uid tag wait out fuel).1 ∧
+    (hdir : dir = .down → isUp g ((s.wd w).path.getD ((s.wd w).path.length - 2) 0) n = false)
+    (hnf : (g.node n).flat = false) :
+    Loc w DT s (resumeTest g s w n phase dir uid tag wait out fuel).1 ∧
     Walk g d ((resumeTest g s w n phase dir uid tag wait out fuel).1.wd w).path ∧
     DirOK g ((resumeTest g s w n phase dir uid tag wait out fuel).1.wd w) := by
   rw [resumeTest_eq]
   have aA := reportOutcome_lw g s w n phase uid wait out
   generalize (reportOutcome g s w n phase uid wait out).1 = sa at aA
   have hwA : w < sa.workers.length := by rw [aA.workersLen]; exact hw
-  have waitCase : ∀ k, Loc w s (sa.setWd w (fun d => { d with pc := .test n phase dir uid tag k })) ∧
+  have waitCase : ∀ k, Loc w DT s (sa.setWd w (fun d => { d with pc := .test n phase dir uid tag k })) ∧
       Walk g d ((sa.setWd w (fun d => { d with pc := .test n phase dir uid tag k })).wd w).path ∧
       DirOK g ((sa.setWd w (fun d => { d with pc := .test n phase dir uid tag k })).wd w) := by
     intro k
     rw [wd_setWd_eq sa w _ hwA, aA.own]
     refine ⟨aA.toLoc.trans (loc_setWd w sa _), hwalk, ?_⟩
-    exact dirOK_test g _ n phase dir uid tag k rfl n hlast hdir
+    exact dirOK_test g _ n phase dir uid tag k rfl n hlast hdir hnf
   split
   · next st0 dur _ =>
     obtain ⟨b1, b2, b3⟩ := recordResult_loc sa w n phase (if (phase == Phase.pre) = true then (s.wd w).preName else (g.node n).name) uid tag st0 dur
@@ -2247,7 +2345,7 @@ theorem resumeTest_any (g : Graph) (d : Nat → Nat) (hr : Ranked g d) (hsym : E
     obtain ⟨k1, k2, k3⟩ := continueAfter_any g d hr hsym w n phase dir fuel hf _ (recordResult sa w n phase
         (if (phase == Phase.pre) = true then (s.wd w).preName else (g.node n).name) uid tag st0 dur).2
       (reportOutcome g s w n phase uid wait out).2 (by rw [b1.workersLen]; exact hwA)
-      (by rw [b2]; exact hlast) (by rw [b2]; exact hwalk) (by rw [b2]; exact hdir)
+      (by rw [b2]; exact hlast) (by rw [b2]; exact hwalk) (by rw [b2]; exact hdir) hnf
     exact ⟨(aA.toLoc.trans b1).trans k1, k2, k3⟩
   · split
     · exact waitCase _
@@ -2255,7 +2353,7 @@ theorem resumeTest_any (g : Graph) (d : Nat → Nat) (hr : Ranked g d) (hsym : E
       · exact waitCase _
       · obtain ⟨k1, k2, k3⟩ := continueAfter_any g d hr hsym w n phase dir fuel hf sa false
           (reportOutcome g s w n phase uid wait out).2 hwA
-          (by rw [aA.own]; exact hlast) (by rw [aA.own]; exact hwalk) (by rw [aA.own]; exact hdir)
+          (by rw [aA.own]; exact hlast) (by rw [aA.own]; exact hwalk) (by rw [aA.own]; exact hdir) hnf
         exact ⟨aA.toLoc.trans k1, k2, k3⟩
 
 /-- the invariant: sizes of the tables, shape of every path, recorded directions -/
@@ -2265,7 +2363,7 @@ structure TInv (g : Graph) (d : Nat → Nat) (s : State) : Prop where
   walk : ∀ v, Walk g d (s.wd v).path
   dir : ∀ v, DirOK g (s.wd v)
 
-theorem TInv.step {g : Graph} {d : Nat → Nat} {s s' : State} {w : Nat} (h : TInv g d s) (a : Loc w s s')
+theorem TInv.step {g : Graph} {d : Nat → Nat} {s s' : State} {w : Nat} (h : TInv g d s) (a : Loc w DT s s')
     (hwalk : Walk g d (s'.wd w).path) (hdir : DirOK g (s'.wd w)) : TInv g d s' := by
   refine ⟨a.nodesLen.trans h.nodesLen, fun n hn => by rw [a.regsLen]; exact h.cls n hn, fun v => ?_, fun v => ?_⟩
   · by_cases hv : v = w
@@ -2289,7 +2387,8 @@ theorem resume_tinv (g : Graph) (d : Nat → Nat) (hr : Ranked g d) (hsym : Edge
   · next n phase dir uid tag wait heq =>
     obtain ⟨_, hlast, _⟩ := hp.testOwn w n (by rw [heq]; rfl)
     obtain ⟨k1, k2, k3⟩ := resumeTest_any g d hr hsym s w n phase dir uid tag wait out fuel hf hws hlast (h.walk w)
-      (fun hdn => h.dir w n phase uid tag wait (by rw [heq, hdn]) n hlast)
+      (fun hdn => (h.dir w).1 n phase uid tag wait (by rw [heq, hdn]) n hlast)
+      ((h.dir w).2 n phase dir uid tag wait heq)
     exact h.step k1 k2 k3
   · exact h
   · exact h
@@ -2331,7 +2430,7 @@ theorem reachable_good {g : Graph} {d : Nat → Nat} (hr : Ranked g d) (hsym : E
 
 /-! ## the scheduler step does not depend on the fuel beyond `bound g` -/
 
-theorem good_of_loc {g : Graph} {d : Nat → Nat} {w : Nat} {s s' : State} (a : Loc w s s')
+theorem good_of_loc {g : Graph} {d : Nat → Nat} {w : Nat} {s s' : State} (a : Loc w DT s s')
     (hn : s.nodes.length = g.nodes.length) (hc : ClsOK g s) (he : Explored g s) (hwalk : Walk g d (s'.wd w).path) :
     Good g d w s' :=
   ⟨a.nodesLen.trans hn, fun n h => by rw [a.regsLen]; exact hc n h, he.mono a.hiddenSub a.incSub, hwalk⟩
@@ -2353,7 +2452,7 @@ theorem continueAfter_fuel (g : Graph) (d : Nat → Nat) (hr : Ranked g d) (hsym
   by_cases hpre : (phase == Phase.pre && ok) = true
   · simp only [hpre, if_true]
   · simp only [hpre, Bool.false_eq_true, if_false]
-    have a2 : LW w s (if (phase == Phase.pre) = true then
+    have a2 : LW w DT s (if (phase == Phase.pre) = true then
           s.setNd n (fun d => { d with results := d.results ++ (s.wd w).preResults.drop d.results.length })
         else s) := by
       split
@@ -2365,6 +2464,7 @@ theorem continueAfter_fuel (g : Graph) (d : Nat → Nat) (hr : Ranked g d) (hsym
         else s) n w = sF at aF
     obtain ⟨h1, h2, _⟩ := afterTraverse_any g d hr hsym sF sF w n ((s.wd w).path.getD ((s.wd w).path.length - 2) 0) dir
       (by rw [aF.workersLen]; exact hw) (by rw [aF.own]; exact hlast) (by rw [aF.own]) (by rw [aF.own]; exact hwalk) hdir
+      (D := DT) (fun _ _ => trivial)
     generalize afterTraverse (vis g sF) sF w n ((s.wd w).path.getD ((s.wd w).path.length - 2) 0) dir = r at h1 h2
     obtain ⟨s1, e2, fl⟩ := r
     dsimp only at h1 h2
@@ -2419,7 +2519,7 @@ theorem resume_fuel (g : Graph) (d : Nat → Nat) (hr : Ranked g d) (hsym : Edge
     obtain ⟨_, hlast, hlen⟩ := hp.testOwn w n (by rw [heq]; rfl)
     have hws : w < s.workers.length := lt_of_path_ne_nil s w (by intro h0; rw [h0] at hlen; simp at hlen)
     exact resumeTest_fuel g d hr hsym s w n phase dir uid tag wait out hws hlast (ht.walk w)
-      (fun hdn => ht.dir w n phase uid tag wait (by rw [heq, hdn]) n hlast) ht.nodesLen ht.cls he fuel hf
+      (fun hdn => (ht.dir w).1 n phase uid tag wait (by rw [heq, hdn]) n hlast) ht.nodesLen ht.cls he fuel hf
   · rfl
   · rfl
 
@@ -3272,7 +3372,7 @@ theorem prepare_lazy (g : Graph) (hk : FlatKidsOK g) (s : State) (w : Nat) (hw :
     (∀ x, x ∈ s.incompatible → x ∈ (prepare g s w).incompatible) ∧
     (∀ f, (s.wd w).path.getLast? = some f → f < g.nodes.length → unexpl g s f = true → s.hidden.contains f = false →
       unexpl g (prepare g s w) f = false) := by
-  obtain ⟨a, b, _⟩ := prepare_loc g s w
+  obtain ⟨a, b, _⟩ := prepare_loc (D := DT) g s w
   obtain ⟨_, f2, f3, _⟩ := prepare_frame g s w
   have hregs : (prepare g s w).regs = s.regs := by
     unfold prepare
